@@ -72,6 +72,7 @@ structure Conn where
   authed : List (Bytes × Bytes × Row) := []  -- ghost: successful AUTHs (ident, digest, row)
   lastReq : List (Bytes × Bool) := []  -- ghost: processed (UN)SUBSCRIBE requests, newest first
   pubsAtClose : Option (List Frame) := none  -- ghost: PUBLISH frames written when closing began
+  lostAs : Option (Option Bytes) := none     -- ghost: the CONNECTION_LOST label it was counted under
 deriving Repr
 
 /-- ghost record of one accepted publish -/
@@ -183,7 +184,7 @@ def connectionLost (s : State) (c : Nat) : State :=
   | some x =>
     if x.registered then
       let s2 := x.active.foldl (fun s ch => unsubscribe s c ch) (countLost s x.ak)
-      s2.upd c fun x => { x with registered := false }
+      s2.upd c fun y => { y with registered := false, lostAs := some x.ak }
     else s
 
 def pack8 (x : Bytes) : Bytes := UInt8.ofNat x.length :: x
